@@ -49,7 +49,7 @@ def run(R, env):
     Mr = resolve_terms(prog, M, env.depth)
     R.info("C04.R1", "M (inlined) = " + fmt(Mr)[:400])
     # the current staked total as seen by the mint computation: loaded value or 0 after the sweep
-    cur = lambda t: norm(t) == norm(cur_native) and all(tnt(a) or zero(a) for a in alts_of(t)) and any(tnt(a) for a in alts_of(t))
+    cur = lambda t: all(tnt(a) or zero(a) for a in alts_of(t)) and any(tnt(a) for a in alts_of(t))
     good = True
     why = ""
     alts = alts_of(Mr)
@@ -67,14 +67,13 @@ def run(R, env):
     calls = [s_ for s_ in subterms(M) if s_[0] == "call" and shared._body_of_call(prog, s_) is not None]
     if calls:
         cb = shared._body_of_call(prog, calls[0])
-        c = Ctx(cb, params={i + 1: a for i, a in enumerate(calls[0][2])})
         isz = lambda t: t[0] == "call" and t[1] == "cosmwasm_std::Uint128::is_zero" and cur(t[2][0])
         for val, name, pred in ((True, "native=0", lambda x: paid(x)), (False, "native>0", lambda x: mr(x, lst, paid, cur))):
-            rem, n = bool_world_edges(c, isz, val)
-            w = c.with_removed(rem).settle()
-            rt = w.T.return_term()
+            # M evaluated in the world where every `total_native.is_zero()` has this value (the
+            # test may sit in the rate helper or in a wrapper around it)
+            Mw = resolve_terms(prog, M, env.depth, None, ((isz, val),))
             R.worlds += 1
-            R.ob("C04.R1", "mint:" + name, n >= 1 and pred(rt), "in the world %s the mint computation returns %s" % (name, fmt(rt)[:200]), fn=cb.key)
+            R.ob("C04.R1", "mint:" + name, all(pred(a) for a in alts_of(Mw)), "in the world %s the mint computation returns %s" % (name, fmt(Mw)[:200]), fn=cb.key)
     # ---------------- R2
     hs = sites["SubmitBatch"]
     sk = hs.body.key
@@ -103,7 +102,7 @@ def run(R, env):
                 R.worlds += 1
                 R.ob("C04.R2", "unbond:" + name, n >= 1 and pred(rt), "in the world %s the unbond computation returns %s" % (name, fmt(rt)[:200]), fn=cb.key)
     # ---------------- R3
-    isM = lambda t: same(t, M)
+    isM = lambda t: shared.same_any(prog, t, M)
     G1 = Guard("mint>0", boolean=lambda t: (False if (t[0] == "call" and t[1] == "cosmwasm_std::Uint128::is_zero" and isM(t[2][0])) else None))
     found = []
     ok, off = guarded(h, G1, prog, env.depth, found)
